@@ -12,9 +12,15 @@
 From Coq Require Import Strings.String.
 Require Import PG.Base.Bytes PG.Base.Value PG.C13.Lib PG.C13.Model PG.C13.Spec.
 Require Import PG.C13.ProofsNum PG.C13.ProofsLex PG.C13.ProofsTag PG.C13.ProofsSql PG.C13.ProofsCsv PG.C13.ProofsJson
-               PG.C13.Historic.
+               PG.C13.ProofsFuel PG.C13.Historic.
 Import List ListNotations.
 #[local] Open Scope list_scope.
+
+(* ---- the relation Lexes is exactly the executable lexer lex_all (which the harness also runs on
+   Go's real output): so "Lexes t toks" below means lex_all t = Some toks, and toks is unique. *)
+Theorem C13_lexer_function : forall t toks, lex_all t = Some toks <-> Lexes t toks.
+Proof. exact lex_all_iff. Qed.
+Print Assumptions C13_lexer_function.
 
 (* ---- values: string constants.  For ALL byte strings s (quotes, backslashes, dollar signs, the
    tool's own tags, newlines, NUL ...) quoteLiteral s is exactly one string constant that decodes to
